@@ -7,7 +7,7 @@ RULE = 'random pipelines: data shape (text, UTF-8 with large code-point sets, DN
 
 def check(run):
     from props import _stream
-    _stream.check(run, PID, CMD, RULE, extra_cmds=('wrm', 'rdm', 'hdm', 'ctm'))
+    _stream.check(run, PID, CMD, RULE, extra_cmds=('wrm', 'rdm', 'hdm', 'ctm', 'xxm'))
 
 def replay(path):
     import json
